@@ -387,8 +387,20 @@ def judge(case):
     return bad, o
 
 
+LONG = [[(0.0, 5, 1.0), (1.0, 5, 2.5), (1.0, 1, 1.0), (2.0, 10, 2.5),
+         (3.0, 5, 2.5), (3.0, 5, 1.0), (4.0, 5, 2.5)],
+        [(0.0, 10, 2.5), (1.0, 5, 1.0), (2.0, 5, 1.0), (2.0, 5, 1.0),
+         (3.0, 1, 2.5), (4.0, 10, 1.0)],
+        [(1.0, 5, 1.0), (1.0, 5, 2.5), (2.0, 5, 1.0), (2.0, 5, 2.5),
+         (3.0, 5, 1.0), (3.0, 5, 2.5), (3.0, 5, 2.5), (4.0, 1, 1.0)]]
+
+
 def schedules(k):
     ob1 = [(t, p, v) for t in TIMES for p in PRIOS for v in VALS]
+    if k == "long":
+        # enough observations for every published statistic to be defined
+        # (sample kurtosis needs four)
+        return [tuple(x) for x in LONG]
     if k == 0:
         return [()]
     if k == 1:
@@ -418,7 +430,7 @@ def worker(task):
         if o is None and not bad:
             continue
         n += 1
-        if len(kept_obs(list(obs), warm)) >= 1 and k >= 2:
+        if len(kept_obs(list(obs), warm)) >= 1 and (k == "long" or k >= 2):
             nontriv += 1
         if sample is None and k == 2 and o is not None:
             sample = {"case": [clock, kind, [list(x) for x in obs], via, warm,
@@ -426,13 +438,13 @@ def worker(task):
         for b in bad[:2]:
             sig = "C11:%s:%s:%s:%s" % (kind, via, mode, b[0])
             cnt[sig] = cnt.get(sig, 0) + 1
-            if sig not in best or k < best[sig][3]:
+            if sig not in best or len(obs) < best[sig][3]:
                 best[sig] = (sig, "%s clock, Sim%s fed %s, warm-up %s, %s, "
                              "observations (time, priority, value) %s: %s" % (
                                  clock, kind, via, warm, mode, list(obs),
                                  common.jsonable(b)),
                              {"case": [clock, kind, [list(x) for x in obs],
-                                       via, warm, mode]}, k)
+                                       via, warm, mode]}, len(obs))
     return dict(n=n, nontrivial=nontriv, sample=sample,
                 viols=[v + (cnt[v[0]],) for v in best.values()])
 
@@ -449,7 +461,7 @@ def run(ctx):
                                   "duration@-10"):
                         if quick and clock != "float" and mode != "run":
                             continue
-                        for k in (0, 1, 2):
+                        for k in (0, 1, 2, "long"):
                             nch = 4 if k == 2 else 1
                             for c in range(nch):
                                 tasks.append((clock, kind, via, warm, mode, k,
